@@ -10,6 +10,7 @@ import NemoVerif.Lemmas.ConflictPhaseVM
 import NemoVerif.Lemmas.ConflictChain
 import NemoVerif.Lemmas.ConflictOrderVM
 import NemoVerif.Lemmas.ConflictGroupVM
+import NemoVerif.Lemmas.ConflictRound
 import NemoVerif.Models.Match
 namespace NemoVerif.C05
 open NemoVerif.Conflict List
@@ -695,5 +696,81 @@ example : applyFates none (resolveFates 5 exHeads [1, 0]) [(10, 0), (11, 0), (13
 /-- padding matters: [0.9] (rank 3) against [0.9, 0.5] (ranks 3, 1) — the shorter vector wins when padded with 1.0 (rank 5) -/
 example : (resolveFates 5 [⟨1, 1, 1, [3, 1], 1, none, 0, false, false, true⟩, ⟨2, 2, 1, [3], 2, none, 0, false, false, true⟩] []).map
     (fun p => (p.1.uid, p.2)) = [(2, .picked), (1, .aborted)] := by decide
+
+
+/-! ## Phase 5 — the round structure of `run_to_completion` (`Models/ConflictRound.lean`)
+
+  `ConflictRound.run` mirrors the main processing loop (drain ALL internal events, advance the MERGING heads, drain again …,
+  only then `_resolve_action_conflicts`, then advance the winners and start over).  The theorems hold for every `World`
+  (= everything the loop does not decide itself), every fuel and every start state. -/
+
+section Round
+open NemoVerif.ConflictRound
+
+/-- `round_drains_before_resolve`: whenever `_resolve_action_conflicts` is called, no internal event is queued.
+    Hypothesis `hnil` (law of the world): `_advance_head_front(state, [])` pushes nothing.  (The loop leaves its inner loops
+    only through a merge pass on NO merging head that was entered with an empty queue — `CallOk.queue`.) -/
+theorem round_drains_before_resolve {σ : Type} (W : World σ) (hnil : ∀ s, (W.advMerging s []).2.1 = 0)
+    (fuel : Nat) (s : σ) : ∀ c ∈ (run W fuel s).1, c.queue = 0 := by
+  intro c hc
+  obtain ⟨s1, h⟩ := (rounds_calls W fuel s 1 [] [] (by simp) c hc).queue
+  rw [h, hnil]
+
+/-- non-vacuity of `hnil`, and the theorem's conclusion on the witness world -/
+example : ∀ s, (exWorld.advMerging s []).2.1 = 0 := by intro s; simp [exWorld]
+example : summary (run exWorld 20 exStart).1 = [(0, [1, 3], [3]), (0, [], [])] := by decide
+
+/-- `nothing_deferred`: every head that `_advance_head_front` returned to the loop since the previous resolution takes part
+    in THIS resolution — unless it was handed to a merge pass (it was MERGING) or is dead when the resolution starts (flow no
+    longer active / head not ACTIVE); and the resolution sees no other heads. -/
+theorem nothing_deferred {σ : Type} (W : World σ) (fuel : Nat) (s : σ) :
+    ∀ c ∈ (run W fuel s).1, (∀ u ∈ c.emitted, u ∈ c.input ∨ u ∈ c.merged ∨ u ∈ c.dead) ∧ (∀ u ∈ c.input, u ∈ c.emitted ∧ u ∉ c.dead) := by
+  intro c hc
+  have h := rounds_calls W fuel s 1 [] [] (by simp) c hc
+  exact ⟨h.conserve, fun u hu => ⟨h.sound u hu, h.live u hu⟩⟩
+
+/-- `same_event_one_resolution`: all heads made actionable between two resolutions of one `run_to_completion` call (i.e. by the
+    same external event, through any chain of internal events and head merges) compete in ONE call of
+    `_resolve_action_conflicts`: two such heads `u`, `v` (not merged away, not dead) are both in the input of that call, and in
+    that call exactly one head of their interaction loop is picked; every head of the loop that advances as winner / co-winner
+    carries the picked head's event (`info` = what the resolution reads of a head, any choice sequence `cs`). -/
+theorem same_event_one_resolution {σ : Type} (W : World σ) (fuel : Nat) (s : σ) (info : Nat → HeadInfo) (one : Int) (cs : List Nat) :
+    ∀ c ∈ (run W fuel s).1, ∀ u ∈ c.emitted, ∀ v ∈ c.emitted, u ∉ c.merged → u ∉ c.dead → v ∉ c.merged → v ∉ c.dead →
+      u ∈ c.input ∧ v ∈ c.input ∧
+      (((resolveFates one (c.input.map info) cs).filter (fun p => p.1.loop == (info u).loop)).filter (fun p => p.2 == Fate.picked)).length = 1 ∧
+      ∀ p ∈ resolveFates one (c.input.map info) cs, ∀ q ∈ resolveFates one (c.input.map info) cs,
+        p.1.loop = (info u).loop → q.1.loop = (info u).loop →
+        (p.2 = Fate.picked ∨ p.2 = Fate.cowin) → (q.2 = Fate.picked ∨ q.2 = Fate.cowin) → p.1.ev = q.1.ev := by
+  intro c hc u hu v hv hum hud hvm hvd
+  have h := (nothing_deferred W fuel s c hc).1
+  have hu' : u ∈ c.input := by
+    rcases h u hu with h1 | h1 | h1
+    · exact h1
+    · exact absurd h1 hum
+    · exact absurd h1 hud
+  have hv' : v ∈ c.input := by
+    rcases h v hv with h1 | h1 | h1
+    · exact h1
+    · exact absurd h1 hvm
+    · exact absurd h1 hvd
+  have hl : ∃ h ∈ c.input.map info, h.loop = (info u).loop := ⟨info u, List.mem_map.2 ⟨u, hu', rfl⟩, rfl⟩
+  obtain ⟨h1, h2⟩ := one_action_per_loop one (c.input.map info) cs (info u).loop hl
+  exact ⟨hu', hv', h1, h2⟩
+
+/-- non-vacuity: on the witness world heads 1 (flow A, direct action) and 3 (flow B, behind an or-group merge and a wrapper
+    flow) are emitted in the first phase, neither merged nor dead -/
+example : ∃ c ∈ (run exWorld 20 exStart).1, 1 ∈ c.emitted ∧ 3 ∈ c.emitted ∧ 1 ∉ c.merged ∧ 3 ∉ c.merged ∧ 1 ∉ c.dead ∧ 3 ∉ c.dead ∧
+    c.advancing = [3] := by decide
+
+/-- The scheduling of seed C05-e (inner loop left as soon as no head is MERGING, pending internal events processed after the
+    resolution) is NOT the modelled loop: on the witness world it resolves with an internal event still queued, head 1 and
+    head 3 are each alone in a resolution of their own and BOTH advance with different events — where the modelled loop lets
+    them compete once and only the more specific head 3 advances. -/
+theorem deferred_scheduling_counterexample :
+    summary (runDeferred exWorld 20 exStart).1 = [(1, [1], [1]), (0, [3], [3]), (0, [], [])] ∧
+    summary (run exWorld 20 exStart).1 = [(0, [1, 3], [3]), (0, [], [])] ∧
+    (exInfo 1).loop = (exInfo 3).loop ∧ (exInfo 1).ev ≠ (exInfo 3).ev := by decide
+
+end Round
 
 end NemoVerif.C05
